@@ -82,6 +82,9 @@ def dynamic_jobs(tier, seed, prop):
                                     r_sensitive=10, r_user=4, base_host_value=0.5), 500, seed + 6))
             # the repository's own drivers (bruteforce agent = what its test-suite runs, random agent) against a
             # recording proxy; numpy's own generator draws
+            # a large scenario (state tensor of more than 1000 cells) driven to its goal and beyond
+            jobs.append(dict(src=("bench_gen", "huge-gen", seed % 50), sweep=2500, seed=seed + 9, extras=False,
+                             decoy=False))
             jobs.append(agt(("bench_yaml", "tiny"), 800, seed + 7, modes=ALL_MODES))
             jobs.append(agt(("bench_yaml", "small"), 700, seed + 8))
             if prop in ("C07", "C14"):
@@ -145,6 +148,12 @@ def dynamic_jobs(tier, seed, prop):
                 jobs.append(agt(("bench_yaml", n), 2500, seed + 400 + i, modes=ALL_MODES))
             for i, n in enumerate(["tiny-gen", "small-gen", "medium-gen"]):
                 jobs.append(agt(("bench_gen", n, (seed + i) % 100), 2500, seed + 420 + i, modes=ALL_MODES))
+            for i, n in enumerate(["large-gen", "huge-gen", "pocp-1-gen", "huge-gen", "pocp-1-gen"]):
+                jobs.append(dict(src=("bench_gen", n, (seed + 7 * i) % 100), sweep=4000, seed=seed + 440 + i, extras=False,
+                                 decoy=False, modes=replay_default()))
+            for i, n in enumerate(["medium", "medium-single-site", "medium-multi-site", "small-linear"]):
+                jobs.append(dict(src=("bench_yaml", n), sweep=3000, seed=seed + 450 + i, extras=False,
+                                 modes=replay_default()))
         ls = prop == "C12"
         md = ALL_MODES if prop in ("C10", "C12") else replay_default()
         for i, n in enumerate(corpus.YAML_BENCHMARKS):
@@ -154,7 +163,8 @@ def dynamic_jobs(tier, seed, prop):
                 jobs.append(rnd(("bench_gen", n, (seed + s_) % 100), (2500 if i < 6 else 1200) if not ls else 400,
                                 seed + 100 + 2 * i + s_, modes=md, lockstep=ls))
     # longest first so that the pool is used well
-    jobs.sort(key=lambda j: -((j.get("random_steps", 0) + 3 * j.get("agents", 0)) * len(j.get("modes", (1, 2)))
+    jobs.sort(key=lambda j: -((j.get("random_steps", 0) + 3 * j.get("agents", 0) + 4 * j.get("sweep", 0))
+                              * len(j.get("modes", (1, 2)))
                               + (100000 if j.get("exhaustive") else 0) * len(j.get("modes", (1, 2)))))
     return jobs
 
@@ -211,7 +221,8 @@ def check_dynamic(prop, tier, seed):
         per_scn.append(dict(scenario=r["name"], spec_states=r["states"], spec_transitions=r["transitions"],
                             transitions_replayed=r["edges_replayed"], recorded_calls=r["events"],
                             gate_classes=len(r["hist"]), wall_s=round(r["wall"], 1),
-                            **({"repository_agents": r["agents"]} if r.get("agents") else {})))
+                            **({"repository_agents": r["agents"]} if r.get("agents") else {}),
+                            **({"goal_seeking_sweep": r["sweep"]} if r.get("sweep") else {})))
         if len(samples) < 3 and r.get("sample"):
             samples.append(dict(scenario=r["name"], event=r["sample"][0]))
         for (p, c, i) in r["fails"]:
